@@ -7,16 +7,9 @@
    per generated program by running the real instruction words in Bpf.v on probe packets. *)
 From Coq Require Import List NArith Bool.
 From Verif.Common Require Import Packet PolicyRef.
-From Verif.C11 Require Import Bpf Model Spec Proofs ProofsRule ProofsTiers ProofsMain ProofsSplit ProofsSets.
+From Verif.C11 Require Import Bpf Model Spec Proofs ProofsRule ProofsTiers ProofsMain ProofsSplit ProofsSets ProofsCut ProofsFinal.
 Import ListNotations.
 Open Scope N_scope.
-
-(* IP sets enter as an oracle `s` (PolicyRef's reading) and as the LPM lookup `bs` the program performs; the two
-   agree when every set id is of one kind: selector sets (kind id = false) hold addresses/CIDRs, named-port and
-   service sets (kind id = true) hold (address, protocol, port); typed_rules: each rule field uses the right kind. *)
-Definition sets_agree (kind : N -> bool) (s : ipsets) (bs : bpfsets) : Prop :=
-  forall id a pr po, bs id a pr po = if kind id then s id (MemIPPort a pr po) else s id (MemIP a).
-Definition addrs_in_range (v : ipver) (ps : pstate) : Prop := forall lg, leg_addr ps lg < 2 ^ addr_width v.
 
 (* MAIN: for every valid polprog.Rules (workload / host interface, pre-DNAT, apply-on-forward, normal host policy,
    profiles, SuppressNormalHostPolicy, ForHostInterface, XDP), every IP-set content and every packet state, the
@@ -26,31 +19,21 @@ Theorem c11_ir_verdict : forall v s bs kind ps r p,
   valid_rules r = true -> typed_rules kind r = true ->
   instructions fixed_variant v r = WOk p ->
   forall lg, final_verdict (br_xdp r) (fst (exec (eval_cond v bs ps) p None lg)) = ref_verdict s v r ps.
-Proof.
-  intros v s bs kind ps r p Hs Ha Hv Ht Hi lg.
-  exact (ir_verdict v s bs kind ps Hs Ha r p (ok_rules_of kind r Hv Ht) Hi lg).
-Qed.
+Proof. exact c11_ir_verdict_pf. Qed.
 Print Assumptions c11_ir_verdict.
 
 (* "Compiling any valid configuration never fails or crashes" (model level, any variant that has the profile
    log label): *)
 Theorem c11_valid_config_compiles : forall vr v r,
   v_profile_log vr = true -> valid_rules r = true -> exists p, instructions vr v r = WOk p.
-Proof. exact instructions_total. Qed.
+Proof. exact c11_valid_config_compiles_pf. Qed.
 Print Assumptions c11_valid_config_compiles.
 
 (* the model's verdict (what check_case compares the real instruction stream with) is the reference verdict *)
 Theorem c11_model_meets_spec : forall v s bs kind ps r,
   sets_agree kind s bs -> addrs_in_range v ps -> valid_rules r = true -> typed_rules kind r = true ->
   exists lg, model_verdict fixed_variant v r bs ps = Some (ref_verdict s v r ps, lg).
-Proof.
-  intros v s bs kind ps r Hs Ha Hv Ht. unfold model_verdict.
-  destruct (instructions_total fixed_variant v r eq_refl Hv) as [p Hp]. rewrite Hp.
-  pose proof (c11_ir_verdict v s bs kind ps r p Hs Ha Hv Ht Hp
-                (negb (N.eqb (N.land (ps_flags ps) FLAG_LOG_PACKET) 0))) as H.
-  destruct (exec (eval_cond v bs ps) p None (negb (N.eqb (N.land (ps_flags ps) FLAG_LOG_PACKET) 0))) as [m lg].
-  simpl in H. rewrite H. eexists. reflexivity.
-Qed.
+Proof. exact c11_model_meets_spec_pf. Qed.
 Print Assumptions c11_model_meets_spec.
 
 (* The two concrete oracles check_case uses (the LPM lookup of Bpf.v and PolicyRef's reading of the same member
@@ -58,7 +41,7 @@ Print Assumptions c11_model_meets_spec.
 Theorem c11_table_sets_agree : forall e,
   table_homogeneous (e_sets e) = true ->
   sets_agree (table_kind (e_sets e)) (ref_sets (addr_bits e) (e_sets e)) (set_lookup e).
-Proof. exact table_sets_agree. Qed.
+Proof. exact c11_table_sets_agree_pf. Qed.
 Print Assumptions c11_table_sets_agree.
 
 (* ... so for every correspondence case (fixed tree) the verdict check_case expects of the real instruction stream
@@ -68,12 +51,7 @@ Theorem c11_case_model_is_reference : forall c progs ps,
   typed_rules (table_kind (c_sets c)) (c_rules c) = true -> addrs_in_range (ver_of c) ps ->
   exists lg, model_verdict fixed_variant (ver_of c) (c_rules c) (set_lookup (env_of c progs)) ps
              = Some (ref_verdict (ref_sets (bits_of c) (c_sets c)) (ver_of c) (c_rules c) ps, lg).
-Proof.
-  intros c progs ps Hh Hv Ht Ha.
-  apply (c11_model_meets_spec (ver_of c) (ref_sets (bits_of c) (c_sets c)) (set_lookup (env_of c progs))
-           (table_kind (c_sets c)) ps (c_rules c)); try assumption.
-  exact (table_sets_agree (env_of c progs) Hh).
-Qed.
+Proof. exact c11_case_model_is_reference_pf. Qed.
 Print Assumptions c11_case_model_is_reference.
 
 (* Splitting (maybeSplitProgram): the body cut into consecutive chunks, each with its own footer, the pending jump
@@ -84,15 +62,26 @@ Theorem c11_split_equiv : forall ev xdp chunks lg,
   (forall c ts, In (c, ts) chunks -> defs_in (not_footer xdp) c) ->
   run_chain ev xdp chunks None lg =
   let '(m', lg') := exec ev (concat (map fst chunks)) None lg in ChDone (final_verdict xdp m') lg'.
-Proof.
-  intros ev xdp chunks lg Hwf Hd. apply (split_equiv ev xdp chunks [] None lg Hwf Hd). intros l H; discriminate.
-Qed.
+Proof. exact c11_split_equiv_pf. Qed.
 Print Assumptions c11_split_equiv.
+
+(* MAIN, split form: compile any valid configuration, cut the body ANYWHERE into consecutive chunks (each becomes a
+   program with its own footer), give every chunk landing pads for the jump targets that may still be pending (what
+   UnresolvedJumpTargets returns, or any superset: `annotate`), chain them by tail calls: the chain reaches the
+   reference verdict. *)
+Theorem c11_split_verdict : forall v s bs kind ps r p chunks,
+  sets_agree kind s bs -> addrs_in_range v ps ->
+  valid_rules r = true -> typed_rules kind r = true ->
+  instructions fixed_variant v r = WOk p -> concat chunks = p ->
+  forall lg, exists lg',
+    run_chain (eval_cond v bs ps) (br_xdp r) (annotate (br_xdp r) [] chunks) None lg = ChDone (ref_verdict s v r ps) lg'.
+Proof. exact c11_split_verdict_pf. Qed.
+Print Assumptions c11_split_verdict.
 
 (* compositionality of the IR semantics (the fact behind splitting at any instruction boundary) *)
 Theorem c11_exec_app : forall ev p1 p2 m lg,
   exec ev (p1 ++ p2) m lg = let '(m1, lg1) := exec ev p1 m lg in exec ev p2 m1 lg1.
-Proof. exact exec_app. Qed.
+Proof. exact c11_exec_app_pf. Qed.
 Print Assumptions c11_exec_app.
 
 (* one rule, as a lemma of its own: the code of a rule leaves a jump to its action label pending iff the rule matches *)
@@ -102,45 +91,20 @@ Theorem c11_rule_exact : forall v s bs kind ps rid b tg dleg c rid',
   valid_rule b = true -> typed_rule kind (b_rule b) = true -> target_ok tg = true ->
   forall lg, fst (exec (eval_cond v bs ps) c None lg)
              = if rule_matches s (b_rule b) (packet_of v ps dleg) then end_mode tg else None.
-Proof.
-  intros v s bs kind ps rid b tg dleg c rid' Hs Ha Hw Hv Ht Hok lg.
-  destruct (write_rule_sem v s bs kind ps Hs Ha rid b tg dleg c rid' Hw Hv Ht Hok) as [S _]. apply S.
-Qed.
+Proof. exact c11_rule_exact_pf. Qed.
 Print Assumptions c11_rule_exact.
-
-(* ------------------------------------------------------------------ the pinned tree: three refutations *)
-Definition allow_all : brule := empty_brule Allow.
-Definition no_sets : bpfsets := fun _ _ _ _ => false.
-Definition no_ref_sets : ipsets := fun _ _ => false.
-Definition some_packet : pstate :=
-  {| ps_src := 167772161; ps_pre_dst := 167772162; ps_post_dst := 167772162; ps_sport := 1234;
-     ps_pre_dport := 80; ps_post_dport := 80; ps_proto := 58; ps_icmp_type := 128; ps_icmp_code := 0; ps_flags := 0 |}.
-Definition wl (tiers : list btier) (profiles : list (list brule)) : brules :=
-  {| br_for_host := false; br_suppress := false; br_xdp := false; br_tiers := tiers; br_profiles := profiles;
-     br_pre_dnat := []; br_forward := []; br_host_normal := []; br_host_profiles := [] |}.
 
 (* (1) writeProfile has no "log" label: a valid configuration makes the builder panic *)
 Theorem c11_profile_log_pinned_panics :
   exists r, valid_rules r = true /\ instructions pinned_variant V4 r = WPanic.
-Proof. exists (wl [] [[empty_brule Log]]). split; vm_compute; reflexivity. Qed.
+Proof. exact c11_profile_log_pinned_panics_pf. Qed.
 Print Assumptions c11_profile_log_pinned_panics.
 
-(* (2) protocolToNumber maps the names icmpv6 / udplite to 0: "allow ICMPv6" allows nothing *)
-Definition allow_icmpv6 : brule :=
-  {| b_rule := {| r_action := Allow; r_ipver := None; r_proto := Some 58; r_src_nets := []; r_src_ports := [];
-                  r_src_named_ports := []; r_dst_nets := []; r_dst_ports := []; r_dst_named_ports := []; r_icmp := None;
-                  r_src_ipsets := []; r_dst_ipsets := []; r_dst_ipport_sets := []; r_not_proto := None; r_not_src_nets := [];
-                  r_not_src_ports := []; r_not_dst_nets := []; r_not_dst_ports := []; r_not_icmp := None;
-                  r_not_src_ipsets := []; r_not_dst_ipsets := []; r_not_src_named_ports := []; r_not_dst_named_ports := [] |};
-     b_pname := Some PnIcmpv6; b_npname := None |}.
 Theorem c11_proto_names_pinned_refuted :
   exists r ps, valid_rules r = true
     /\ ref_verdict no_ref_sets V6 r ps = RAllow
     /\ model_verdict pinned_variant V6 r no_sets ps = Some (RDeny, false).
-Proof.
-  exists (wl [{| bt_policies := [[allow_icmpv6]]; bt_end := EndDeny |}] []), some_packet.
-  split; [|split]; vm_compute; reflexivity.
-Qed.
+Proof. exact c11_proto_names_pinned_refuted_pf. Qed.
 Print Assumptions c11_proto_names_pinned_refuted.
 
 (* (3) a matching Pass rule of a profile denies instead of moving on to the next profile *)
@@ -148,38 +112,5 @@ Theorem c11_profile_pass_pinned_refuted :
   exists r ps, valid_rules r = true
     /\ ref_verdict no_ref_sets V4 r ps = RAllow
     /\ model_verdict pinned_variant V4 r no_sets ps = Some (RDeny, false).
-Proof.
-  exists (wl [] [[empty_brule Pass]; [allow_all]]), some_packet.
-  split; [|split]; vm_compute; reflexivity.
-Qed.
+Proof. exact c11_profile_pass_pinned_refuted_pf. Qed.
 Print Assumptions c11_profile_pass_pinned_refuted.
-
-(* ------------------------------------------------------------------ hypotheses are satisfiable, non-trivially *)
-Example c11_example_config :
-  let r := wl [{| bt_policies := [[allow_icmpv6]; [empty_brule Log; empty_brule Pass]]; bt_end := EndPass |}]
-              [[empty_brule Pass]; [allow_all]] in
-  valid_rules r = true /\ typed_rules (fun _ => false) r = true
-  /\ sets_agree (fun _ => false) no_ref_sets no_sets
-  /\ addrs_in_range V4 some_packet
-  /\ model_verdict fixed_variant V4 r no_sets some_packet = Some (RAllow, false)
-  /\ ref_verdict no_ref_sets V4 r some_packet = RAllow.
-Proof.
-  cbv zeta.
-  split; [vm_compute; reflexivity|]. split; [vm_compute; reflexivity|].
-  split; [intros id a pr po; reflexivity|].
-  split; [intros []; vm_compute; reflexivity|].
-  split; vm_compute; reflexivity.
-Qed.
-
-(* a split with a pending end-of-tier label handed over between two chained programs *)
-Example c11_example_split :
-  let c1 := [IJmp (LEndOfTier 0); ILabel (LNoMatch 0)] in
-  let c2 := [IJmp LDeny; ILabel (LNoMatch 1); ILabel (LEndOfTier 0); IJmp LAllow] in
-  chain_wf false [] [(c1, [LEndOfTier 0]); (c2, [LEndOfTier 0])]
-  /\ run_chain (fun _ => false) false [(c1, [LEndOfTier 0]); (c2, [LEndOfTier 0])] None false = ChDone RAllow false.
-Proof.
-  cbv zeta. split; [|vm_compute; reflexivity].
-  simpl. split; [|split; [|exact I]].
-  - intros l [[H|[]]|[]] _. subst l. left. reflexivity.
-  - intros l [[H|[H|[]]]|[H|[]]] Hf; subst l; try discriminate; left; reflexivity.
-Qed.
